@@ -134,9 +134,88 @@ def cases(ctx, rng, quick):
                     yield name, mesh, fx, fix_psi, gen_sequence(rng, E, length)
 
 
+def ramped_field(x, y, z, *, t, B=0.3, rate=3.0):
+    s = min(1.0, 0.1 + rate * t)
+    return np.stack([-s * B * y / 2, s * B * x / 2, np.zeros_like(x)], axis=1)
+
+
+def solver_level(ctx, stop_first=False):
+    """"no step ever runs with stale or partially updated operators": inside real runs, at every evaluation of the
+    psi update, the covariant operators in use equal operators built from scratch for the latest vector potential
+    (the applied one just evaluated at the current time + the induced one of the latest screening iteration)"""
+    import tdgl
+    import runs
+    import zoo
+    from tdgl.finite_volume.operators import MeshOperators
+    from tdgl.solver.solver import TDGLSolver
+
+    first = None
+    cfgs = [
+        dict(name="td+screening", dev="ring", td=True, o=dict(include_screening=True, screening_tolerance=1e-3), lam=1.0),
+        dict(name="td+screening+unpinned-terminals", dev="bar", td=True, cur={"source": 2.0, "drain": -2.0}, o=dict(include_screening=True, screening_tolerance=1e-3, terminal_psi=None), lam=1.0),
+        dict(name="td", dev="bar", td=True, cur={"source": 2.0, "drain": -2.0}, o=dict()),
+    ]
+    if not ctx.quick:
+        cfgs += [
+            dict(name="static+screening+terminals", dev="bar3", td=False, cur={"source": 3.0, "drain": -1.0, "top": -2.0}, o=dict(include_screening=True, screening_tolerance=1e-3), lam=1.0),
+            dict(name="td+screening+terminals", dev="bar_hole", td=True, cur={"source": 2.0, "drain": -2.0}, o=dict(include_screening=True, screening_tolerance=1e-3), lam=1.0),
+        ]
+    for cfg in cfgs:
+        dev = zoo.make_device(cfg["dev"], ctx.rng, max_edge_length=1.2, lam=cfg.get("lam", 2.0))
+        A = tdgl.Parameter(ramped_field, time_dependent=True) if cfg["td"] else 0.5
+        opts = runs.options(solve_time=0.08, dt_init=5e-3, adaptive=False, save_every=100, **cfg["o"])
+        log = dict(applied=None, induced=None, checked=0, worst=0.0, bad=None)
+        o_step, o_upd, o_ind, o_app = TDGLSolver.adaptive_euler_step, TDGLSolver.update, TDGLSolver.get_induced_vector_potential, TDGLSolver.update_applied_vector_potential
+
+        def upd(self, state, rs, dt, **kw):
+            log["induced"] = np.array(kw["induced_vector_potential"], dtype=float)
+            if not self.dynamic_vector_potential:
+                log["applied"] = np.array(self.current_A_applied, dtype=float)
+            return o_upd(self, state, rs, dt, **kw)
+
+        def app(self, time):
+            r = o_app(self, time)
+            log["applied"] = np.array(r, dtype=float)
+            return r
+
+        def ind(self, *a, **kw):
+            r = o_ind(self, *a, **kw)
+            log["induced"] = np.array(r[0], dtype=float)
+            return r
+
+        def stp(self, *a, **kw):
+            latest = log["applied"] + (log["induced"] if self.options.include_screening else 0.0)
+            fresh = MeshOperators(self.device.mesh, self.options.sparse_solver, fixed_sites=self.operators.fixed_sites, fix_psi=self.operators.fix_psi)
+            fresh.build_operators()
+            fresh.set_link_exponents(latest)
+            d = max(float(np.abs((self.operators.psi_laplacian - fresh.psi_laplacian)).max()), float(np.abs((self.operators.psi_gradient - fresh.psi_gradient)).max()))
+            log["checked"] += 1
+            log["worst"] = max(log["worst"], d)
+            if d > 1e-12 and log["bad"] is None:
+                log["bad"] = dict(psi_step=log["checked"], difference=d)
+            return o_step(self, *a, **kw)
+
+        TDGLSolver.update, TDGLSolver.update_applied_vector_potential, TDGLSolver.get_induced_vector_potential, TDGLSolver.adaptive_euler_step = upd, app, ind, stp
+        try:
+            tdgl.solve(dev, opts, applied_vector_potential=A, terminal_currents=cfg.get("cur"))
+        finally:
+            TDGLSolver.update, TDGLSolver.update_applied_vector_potential, TDGLSolver.get_induced_vector_potential, TDGLSolver.adaptive_euler_step = o_upd, o_app, o_ind, o_step
+        ctx.case(("in-solver", cfg["name"]), nontrivial=log["checked"] > 3)
+        ctx.count("psi_steps_checked_in_real_runs", log["checked"])
+        ctx.tol("operators in use vs rebuilt for the latest vector potential (real runs)", log["worst"], 1e-12)
+        if log["bad"] is not None:
+            rp = dict(config=cfg["name"], **log["bad"])
+            ctx.fail("stale-operators-in-run", f"{cfg['name']}: psi evaluation #{log['bad']['psi_step']} ran with covariant operators that differ from operators rebuilt for the latest vector potential by {log['bad']['difference']:.3e}", rp)
+            first = first or dict(key="stale-operators-in-run", what="stale operators inside a run", **rp)
+            if stop_first:
+                return first
+    return first
+
+
 def run(ctx):
     for name, mesh, fx, fix_psi, seq in cases(ctx, ctx.rng, ctx.quick):
         eval_case(ctx, name, mesh, fx, fix_psi, seq)
+    solver_level(ctx)
 
 
 def search(ctx):
@@ -145,7 +224,7 @@ def search(ctx):
         f = eval_case(ctx, name, mesh, fx, fix_psi, seq, with_model=False)
         if f is not None:
             return f
-    return None
+    return solver_level(ctx, stop_first=True)
 
 
 def replay(payload):
